@@ -444,6 +444,14 @@ def run(ctx):
         c["_deps"] = observe_tree.deps
     tree_rows = [(r, dist_table(r[0])) for r in rows if r[0]["mode"] == "tree"]
     tree_rows = [(r, t) for r, t in tree_rows if t is not None]
+    for r, t in tree_rows:
+        # the hypotheses of C07_coinciding_same_child / C07_not_separated_before on the distances handed to the model
+        for L, tb in enumerate(t):
+            E_ = len(tb)
+            if any(tb[a][b] != tb[b][a] or tb[a][b] < 0 for a in range(E_) for b in range(E_)):
+                ctx.violation("tree/distance-hypotheses", {"case": r[0], "depth": L}, no_input=True,
+                              what="the distance table of the harness is not symmetric / non-negative")
+            ctx.count("coinciding_pairs", sum(1 for a in range(E_) for b in range(a + 1, E_) if tb[a] == tb[b] and tb[a][b] == 0))
     models = core.eval_terms(ID + "tree", ["Xq", "ControlTree"], [tree_term(r[0], t) for r, t in tree_rows], shard=60) if tree_rows else []
     model_of = {id(r[0]): mv for (r, t), mv in zip(tree_rows, models)}
     for c, idx, branches, sidx, nx in rows:
